@@ -70,6 +70,24 @@ class Recorder:
                 return o
             return h
 
+        def zeros_like(kind):
+            def h(I, args, kwargs, node):
+                a = args[0] if args else None
+                if isinstance(a, Opaque) and "shape" in a.attrs:
+                    shp, dt = a.attrs["shape"], a.attrs.get("dtype")
+                elif isinstance(a, Arr) and a.shape is not None:
+                    shp, dt = Tup(list(a.shape)), Opaque("the dtype of %s" % (a.name or "a result field"))  # inherited: whatever precision that array has
+                else:
+                    return Unknown("np.%s_like of %r" % (kind, a))
+                if kwargs.get("shape") is not None:
+                    shp = kwargs["shape"]
+                if kwargs.get("dtype") is not None:
+                    dt = kwargs["dtype"]
+                o = Opaque("alloc@%s" % node.lineno, {"shape": shp, "fill": kind, "dtype": dt, "line": node.lineno})
+                rec.arrays.append(o)
+                return o
+            return h
+
         def dataset(I, args, kwargs, node):
             o = Opaque("dataset", {"data_vars": args[0] if args else kwargs.get("data_vars"), "coords": kwargs.get("coords"), "attrs_": kwargs.get("attrs")})
             rec.datasets.append(o)
@@ -81,7 +99,13 @@ class Recorder:
         def strof(I, args, kwargs, node):
             return args[0] if isinstance(args[0], str) else Opaque("str", {"of": args[0]})
 
-        return {"str": strof, "numpy.zeros": zeros("zeros"), "numpy.empty": zeros("empty"), "numpy.ones": zeros("ones"), "numpy.full": zeros("full"),
+        def unique(I, args, kwargs, node):
+            a = args[0] if args else None
+            if isinstance(a, Opaque) and "getitem" in a.attrs and not kwargs and len(args) == 1:
+                return Opaque("unique(%s)" % a.name, {"of": a.name, "index": ("sorted distinct values",)})
+            return Unknown("np.unique")
+
+        return {"str": strof, "numpy.unique": unique, "numpy.zeros": zeros("zeros"), "numpy.zeros_like": zeros_like("zeros"), "numpy.empty_like": zeros_like("empty"), "numpy.ones_like": zeros_like("ones"), "numpy.empty": zeros("empty"), "numpy.ones": zeros("ones"), "numpy.full": zeros("full"),
                 "xarray.Dataset": dataset, "pathlib.Path": path}
 
 
@@ -107,7 +131,7 @@ def io_obligations(P):
             for r in rets:
                 n_before = len(obs)
                 # `if not np.all(np.isnan(z0_data))` is a test on recorded storage: both outcomes are examined (R-NC-FIELDS), neither is a guess
-                guessed = [d for d, _ in r.path if d.startswith("unknown test") and "numpy.all" not in d]
+                guessed = [d for d, _ in r.path if d.startswith("unknown test") and "numpy.all" not in d and "np.all" not in d]
                 stores = [e[2] for e in r.events if e[0] == "item-store"]
                 dsets = [c for c in r.calls if c[0] == "xarray.Dataset"]
                 if len(dsets) != 1:
@@ -182,6 +206,8 @@ def io_obligations(P):
                     ent = cd.get(cname)
                     val = ent.items[1] if isinstance(ent, Tup) and len(ent.items) >= 2 else None
                     ok = isinstance(val, Opaque) and val.attrs.get("of") == gname and val.attrs.get("index") == index
+                    if not ok and isinstance(val, Opaque) and val.attrs.get("index") == ("sorted distinct values",) and cname in ("x", "y"):
+                        ok = None  # equal to the axis only because the solver's horizontal axes ascend strictly: not decided here (the levels carry no such order)
                     obs.append(req_ob("R-NC-COORD", site, "coordinate %s is %s[%s] %s" % (cname, gname, ",".join(index), tag), ok, detail=repr(val)[:120], key={"coord": cname}))
                 # ---- per-step met values
                 met = {"ustar": "ustar", "mol": "mol", "wind_speed": "ws", "wind_dir": "wd"}
